@@ -94,6 +94,8 @@ class Builtins(OpsMixin, LoopsMixin):
             return VInt(V_MAXSIZE)
         key = self.LIB_MODULES.get(mod, mod)
         full = "%s.%s" % (key, attr)
+        if full in self.LIB_CLASSES:
+            return VClass([full])
         if ex.reg.get(full) is not None or full in self.table:
             return VFunc("builtin", full)
         if full in self.LIB_SUBMODULES:
@@ -811,6 +813,15 @@ class Builtins(OpsMixin, LoopsMixin):
             return
         if attr == "__iter__":
             yield p, VBool(self.isinstance_cond(ex, p, v, ["Iterable"]))
+            return
+        if attr == "__getitem__":
+            if isinstance(v, VDyn):
+                t = v.t
+                yield p, VBool(z3.Or(Val.is_VIntSeq(t), Val.is_VRealSeq(t), Val.is_VStrSeq(t), Val.is_VValSeq(t),
+                                     Val.is_VSliceSeq(t), Val.is_VStr(t), Val.is_VBytes(t),
+                                     z3.And(Val.is_VOpaque(t), self.OPAQUE_ITERABLE(Val.ok(t)))))
+            else:
+                yield p, VBool(isinstance(v, (VTuple, VSeq, VStr)))
             return
         if isinstance(v, VDyn):
             if attr in ("id", "name"):
